@@ -286,6 +286,10 @@ def _wrap_gate(path, fd, mode, buffering, encoding, errors, newline):
     return io.TextIOWrapper(buf, encoding=encoding, errors=errors, newline=newline)
 
 
+def _text_encoding(encoding, stacklevel=2):
+    return "locale" if encoding is None else encoding
+
+
 def sim_open(file, mode="r", buffering=-1, encoding=None, errors=None, newline=None,
              closefd=True, opener=None):
     if isinstance(file, int):
@@ -298,6 +302,9 @@ def sim_open(file, mode="r", buffering=-1, encoding=None, errors=None, newline=N
         if p is not None and any(c in mode for c in "wax+"):
             _note_outside(p, "open:" + mode)
         return _real_open(file, mode, buffering, encoding, errors, newline, closefd, opener)
+    if "b" not in mode and encoding in (None, "locale"):
+        # the locale encoding of the simulated process
+        encoding = getattr(SIM, "locale", None) or "utf-8"
     writing = any(c in mode for c in "wax+")
     if writing:
         if "+" in mode:
@@ -506,6 +513,10 @@ def install():
     _installed[0] = True
     io.open = sim_open
     builtins.open = sim_open
+    # the harness interpreter runs in UTF-8 mode, where pathlib's read_text / write_text would
+    # name "utf-8" themselves; the simulated process is an ordinary one: "no encoding given"
+    # stays "locale" down to the open seam, which then applies the simulated locale
+    io.text_encoding = _text_encoding
     os.open = sim_os_open
     for name, n in (("replace", 2), ("rename", 2), ("unlink", 1), ("remove", 1), ("mkdir", 1),
                     ("rmdir", 1), ("truncate", 1), ("link", 2), ("symlink", 2)):
